@@ -1139,6 +1139,7 @@ func runC14(c *Ctx) {
 	gen("special", c.N(600, 12000), c14GenSpecial)
 	gen("flags", c.N(500, 8000), c14GenFlags)
 	gen("flagmix", c.N(700, 12000), c14GenFlagMix) // the report flags in pairs and triples (c14flags.go)
+	gen("contra", c.N(400, 8000), c14GenContra) // journals whose files contradict each other (c14contra.go)
 	gen("slow", c.N(3, 12), c14GenKnownSlow)
 	if c.Replay && c.OnlyStr == "directed" {
 		// a finding of the directed search carries its own input (the absolute paths in it name the scratch
